@@ -5,7 +5,9 @@
    re-keyed without a with_clones decision; ...), and a valid call answers Ok.
    Covered: add_child(data) and the four shortcuts, add_child(node), every remove, remove_children, clear, del,
    sort_children (flat and deep), set_data, rename, metadata edits, new tree, Tree.copy, Node.copy.
-   NOT covered (valid_op = false): move_to, add(tree), copy_to(add_self=False), the in-place filter, from_dict. *)
+   move_to has its own predicate and theorem ([valid_move], [move_progress]: it needs WFw, the node must be found again
+   after it was taken out).  NOT covered (valid_op = false): add(tree), copy_to(add_self=False), the in-place filter,
+   from_dict. *)
 From Coq Require Import List ZArith Bool Arith Lia Permutation.
 From NT Require Import Sx Rose ListFacts RoseFacts Surgery SurgeryFacts Machine WF MachineFacts PreserveSteps PreserveOps
   PreserveRelabel Effects SortFacts.
@@ -212,4 +214,111 @@ Proof.
     destruct (unregister_all _ _ _). eexists. reflexivity.
   - unfold op_del. destruct (get_tree w ti) as [t|] eqn:Gt; [|discriminate]. destruct (getitem t k) as [[|n [|n2 l]]|]; try discriminate.
     eexists. apply remove_progress. unfold valid_remove. rewrite Gt. destruct (did_of n (forest_of t)); [reflexivity|discriminate].
+Qed.
+
+(* ---- no over-refusal (audit C03, medium; the area of D12): every uniqueness refusal has a documented cause ---- *)
+From NT Require Import Invariant Refusal.
+
+(* add(node) / add_child(node): EUnique only when the source already is a child of that parent, or the explicit data_id
+   contradicts the source's, or the target parent really has a child with the source's data_id *)
+Theorem add_node_unique_cause w ti p sti src e k b deep :
+  WFw w -> fst (op_add_node w ti p sti src e k b deep) = Err EUnique ->
+  exists t st s, get_tree w ti = Some t /\ get_tree w sti = Some st /\ get_node src (forest_of st) = Some s /\
+    ((ti = sti /\ parent_of src (forest_of st) = Some p) \/
+     (exists x, e = Some x /\ x <> rdid s) \/
+     sibling_with (forest_of t) p (rdid s) 0).
+Proof.
+  intros H. unfold op_add_node. destruct (get_tree w ti) as [t|] eqn:Gt; [|discriminate]. destruct (get_tree w sti) as [st|] eqn:Gs; [|discriminate].
+  destruct (get_node src (forest_of st)) as [s|] eqn:Gn; [|discriminate]. destruct (parent_path p (forest_of t)) as [pq|] eqn:Gp; [|discriminate].
+  destruct (get_ch pq (forest_of t)) as [ch|] eqn:Gc; [|discriminate]. intros X. exists t, st, s. refine (conj eq_refl (conj eq_refl (conj Gn _))).
+  destruct (typed t && negb (typed st)); [discriminate|]. cbv zeta in X.
+  destruct (_ && match e with Some _ => true | None => false end); [discriminate|].
+  destruct (Nat.eqb ti sti && _) eqn:E1.
+  { left. apply andb_true_iff in E1. destruct E1 as [A B]. apply Nat.eqb_eq in A. split; [exact A|].
+    destruct (parent_of src (forest_of st)) as [q|]; [|discriminate]. apply Nat.eqb_eq in B. now subst. }
+  destruct (match e with Some e0 => negb (did_eqb e0 (rdid s)) | None => false end) eqn:E2.
+  { right. left. destruct e as [x|]; [|discriminate]. exists x. split; [reflexivity|]. intros ->.
+    apply negb_true_iff in E2. assert (Y : did_eqb (rdid s) (rdid s) = true) by now apply did_eqb_eq. congruence. }
+  destruct (_ && is_desc_or_self src p (forest_of st)); [discriminate|]. destruct (negb (before_ok (norm_before b) ch)); [discriminate|].
+  destruct (negb (typed t) && typed st); [discriminate|].
+  assert (Eid : (match e with Some e0 => e0 | None => rdid s end) = rdid s).
+  { destruct e as [x|]; [|reflexivity]. apply negb_false_iff in E2. now apply did_eqb_eq in E2. }
+  rewrite Eid in X. destruct (collides t p (rdid s)) eqn:Ec.
+  - right. right. assert (Wt : WF t) by exact (WFw_tree _ ti t H Gt).
+    apply (collides_iff_sibling t p ch (rdid s) Wt); [unfold children_of; now rewrite Gp|exact Ec].
+  - destruct (if match deep with Some x => x | None => false end then _ else _) as [kids n']. destruct (register_all _ _ _). discriminate.
+Qed.
+
+(* move_to: EUnique only when the target is another parent that has a child with the node's data_id *)
+Theorem move_unique_cause w ti n tti target b :
+  fst (op_move w ti n tti target b) = Err EUnique ->
+  exists t s cur tch c, get_tree w ti = Some t /\ get_node n (forest_of t) = Some s /\ parent_of n (forest_of t) = Some cur /\
+    cur <> target /\ children_of target (forest_of t) = Some tch /\ In c tch /\ rdid c = rdid s.
+Proof.
+  unfold op_move. destruct (get_tree w ti) as [t|] eqn:Gt; [|discriminate]. destruct (typed t); [discriminate|].
+  destruct (negb (Nat.eqb ti tti)); [discriminate|]. destruct (get_node n (forest_of t)) as [s|] eqn:Gn; [|discriminate].
+  destruct (children_of target (forest_of t)) as [tch|] eqn:Gc; [|discriminate]. destruct (parent_of n (forest_of t)) as [cur|] eqn:Gp; [|discriminate].
+  destruct (is_desc_or_self n target (forest_of t)); [discriminate|]. cbv zeta. destruct (negb (before_ok (norm_before b) tch)); [discriminate|].
+  destruct (negb (Nat.eqb cur target) && existsb (fun c => did_eqb (rdid c) (rdid s)) tch) eqn:E.
+  - intros _. apply andb_true_iff in E. destruct E as [A B]. apply negb_true_iff, Nat.eqb_neq in A.
+    apply existsb_exists in B. destruct B as (c & Hc & Ed). apply did_eqb_eq in Ed.
+    exists t, s, cur, tch, c. refine (conj eq_refl (conj Gn (conj Gp (conj A (conj Gc (conj Hc Ed)))))).
+  - destruct (match norm_before b with NNode s0 => Nat.eqb s0 n | _ => false end); [discriminate|].
+    destruct (move_in t n target (norm_before b)); discriminate.
+Qed.
+
+(* ---- move_to: progress ---- *)
+Lemma move_in_total t n target nb s tch : WF t -> get_node n (forest_of t) = Some s ->
+  children_of target (forest_of t) = Some tch -> is_desc_or_self n target (forest_of t) = false ->
+  exists t', move_in t n target nb = Some t'.
+Proof.
+  intros H Gn Gc Nd. unfold move_in. set (f := forest_of t) in *.
+  destruct (get_node_loc n f s Gn) as (q0 & i & l & E & N).
+  assert (D : detach n f = Some (s, upd_ch q0 (remove_nth i) f)) by (unfold detach; now rewrite E, N).
+  rewrite D. set (f1 := upd_ch q0 (remove_nth i) f) in *.
+  destruct (Nat.eqb target 0) eqn:T0; [unfold parent_path; rewrite T0; eexists; reflexivity|].
+  assert (In1 : In target (ids f1)).
+  { unfold children_of, parent_path in Gc. rewrite T0 in Gc. destruct (node_path target f) as [q|] eqn:Np; [|discriminate].
+    destruct (node_path_sound target f q Np) as (s2 & Na & Rs2). destruct (node_at_loc q f s2 0 Na) as (_ & _ & P2 & _).
+    assert (Inf : In target (ids f)) by (rewrite <- Rs2; unfold ids; now apply in_map).
+    destruct (remove_branch t n) as [t'|] eqn:Rb.
+    2:{ unfold remove_branch in Rb. fold f in Rb. rewrite D in Rb. destruct (unregister_all _ _ _); discriminate. }
+    destruct (WF_remove_branch t n t' H Rb) as (_ & s0 & P0 & R0 & Pm).
+    assert (Ft' : forest_of t' = f1).
+    { unfold remove_branch in Rb. fold f in Rb. rewrite D in Rb. destruct (unregister_all _ _ _). injection Rb as <-. reflexivity. }
+    rewrite Ft' in Pm. fold f in Pm, P0. destruct (get_node_spec n f s Gn) as (Ps & Rs).
+    assert (s0 = s) by (apply (node_unique f); auto; [apply H|congruence]). subst s0.
+    apply (Permutation_in _ Pm) in Inf. apply in_app_or in Inf. destruct Inf as [X|X]; [|exact X]. exfalso.
+    unfold is_desc_or_self in Nd. fold f in Nd. rewrite Gn in Nd.
+    assert (Y : existsb (Nat.eqb target) (ids_t s) = true) by (apply existsb_exists; exists target; split; [exact X|apply Nat.eqb_refl]).
+    congruence. }
+  destruct (node_path_complete target f1 In1) as (q & Hq). unfold parent_path. rewrite T0, Hq. eexists. reflexivity.
+Qed.
+
+(* move_to inside one plain tree: the node and the target exist, the target is not in the node's own branch, `before`
+   names a child of the target, and (unless the node already is a child of the target) no child of the target carries
+   the node's data_id *)
+Definition valid_move (w : world) (ti n target : nat) (b : before) : bool :=
+  match get_tree w ti with
+  | Some t =>
+      negb (typed t) &&
+      match get_node n (forest_of t), children_of target (forest_of t), parent_of n (forest_of t) with
+      | Some s, Some tch, Some cur =>
+          negb (is_desc_or_self n target (forest_of t)) && before_ok (norm_before b) tch &&
+          negb (negb (Nat.eqb cur target) && existsb (fun c => did_eqb (rdid c) (rdid s)) tch)
+      | _, _, _ => false
+      end
+  | None => false
+  end.
+
+Theorem move_progress w ti n target b : WFw w -> valid_move w ti n target b = true -> fst (op_move w ti n ti target b) = Ok [].
+Proof.
+  intros W. unfold valid_move, op_move. destruct (get_tree w ti) as [t|] eqn:Gt; [|discriminate]. intros H.
+  apply andb_true_iff in H. destruct H as [Ty H]. apply negb_true_iff in Ty. rewrite Ty, Nat.eqb_refl. cbn [negb].
+  destruct (get_node n (forest_of t)) as [s|] eqn:Gn; [|discriminate]. destruct (children_of target (forest_of t)) as [tch|] eqn:Gc; [|discriminate].
+  destruct (parent_of n (forest_of t)) as [cur|] eqn:Gp; [|discriminate].
+  apply andb_true_iff in H. destruct H as [H H3]. apply andb_true_iff in H. destruct H as [H1 H2].
+  apply negb_true_iff in H1, H3. rewrite H1, H2, H3. cbn [negb].
+  destruct (match norm_before b with NNode s0 => Nat.eqb s0 n | _ => false end); [reflexivity|].
+  destruct (move_in_total t n target (norm_before b) s tch (WFw_tree _ ti t W Gt) Gn Gc H1) as (t' & ->). reflexivity.
 Qed.
